@@ -390,7 +390,7 @@ func runC17(c *engine.Ctx) {
 			}
 		}
 	}
-	c.Floor(n, 10)
+	c.Floor(n, 5)
 
 	// ---- R5 ----
 	c.Rule("R5", "handleConnection: the first message is accepted only as *Login, *NewWorkConn or *NewVisitorConn; a read error, any other message type and every refused request close the connection")
@@ -522,7 +522,7 @@ func runC17(c *engine.Ctx) {
 			}
 		}
 	}
-	c.Floor(nr, 7)
+	c.Floor(nr, 4)
 
 	// ---- R9 a failed first read does not crash the accept loop (shared with C16.R10) ----
 	c16ErrorPathDerefRule(c, "R9")
@@ -533,6 +533,41 @@ func runC17(c *engine.Ctx) {
 
 	// ---- R11 a read error of any kind ends the read loop (shared with C14.R6) ----
 	checkReadLoopEnds(c, "R11")
+
+	// ---- R13 a frame length read off the wire is bounded below before it sizes a buffer (shared with C16.R2) ----
+	c16AllocSizesRule(c, "R13")
+
+	// ---- R12 the wire form of every message is the one encoding/json derives from the struct (which R2 pins): no type of
+	// package msg brings its own encoder or decoder — a hand-written MarshalJSON is a second schema that R2 cannot see ----
+	c.Rule("R12", "no type declared in pkg/msg has a MarshalJSON, UnmarshalJSON, MarshalText or UnmarshalText method")
+	if mp := p.Pkg("pkg/msg"); mp != nil && mp.Types != nil {
+		nt := 0
+		for _, name := range mp.Types.Scope().Names() {
+			tn, ok := mp.Types.Scope().Lookup(name).(*types.TypeName)
+			if !ok {
+				continue
+			}
+			named, ok := tn.Type().(*types.Named)
+			if !ok {
+				continue
+			}
+			nt++
+			var custom []string
+			for _, t := range []types.Type{named, types.NewPointer(named)} {
+				ms := types.NewMethodSet(t)
+				for i := 0; i < ms.Len(); i++ {
+					switch m := ms.At(i).Obj().Name(); m {
+					case "MarshalJSON", "UnmarshalJSON", "MarshalText", "UnmarshalText":
+						if ms.At(i).Obj().Pkg() == mp.Types {
+							custom = append(custom, m)
+						}
+					}
+				}
+			}
+			c.Check(len(custom) == 0, "pkg/msg."+name+">generic-codec", tn.Pos(), 1, custom, "%s is encoded by encoding/json from its fields (custom: %s)", name, strings.Join(custom, ","))
+		}
+		c.Floor(nt, 18)
+	}
 }
 
 // checkCodecDependency re-derives the facts the quick tier trusts by pin, from the dependency's own source.
